@@ -55,7 +55,7 @@ func TestStoreProofs(t *testing.T) {
 	if vk.Thorough() {
 		maxN, claims = 60, 120
 	}
-	vk.Check(t, 700, 16000, func(rt *rapid.T, c *vk.Case) {
+	vk.Check(t, 700, 10000, func(rt *rapid.T, c *vk.Case) {
 		w := buildWorld(rt, c, maxN)
 		defer removeWorld(w)
 		checkComplete(rt, c, w.H, 25)
